@@ -7,13 +7,13 @@
 package opsim
 
 import (
-	"regexp"
 	"context"
 	"encoding/json"
 	"fmt"
 	"net"
 	"os"
 	"path/filepath"
+	"regexp"
 	"sort"
 	"strconv"
 	"strings"
@@ -467,23 +467,24 @@ func linkStub(dst string) error {
 
 // Sim is one running operator instance.
 type Sim struct {
-	In       Input
-	Op       *shell_operator.ShellOperator
-	Srv      *Server
-	Dir      string
-	open     map[int]*Call // queue -> open execution
-	monNum   map[string]int
-	hookV0   map[int]bool
-	bindingQ map[int]int
-	stopped  bool
-	booted   bool
-	Backoffs []int // failure counts passed to the queues' back-off function
-	boMu     sync.Mutex
-	waitNext map[int]int        // queue -> 1: the next back-off is long, 2: short
-	delayed  map[int]*delayInfo // queues whose worker waits in a back-off delay
-	elapsing map[int]bool       // long delays being cancelled
-	Timing   string             // a short delay could not be hit in time (the run is repeated)
-	cancel   context.CancelFunc
+	In          Input
+	Op          *shell_operator.ShellOperator
+	Srv         *Server
+	Dir         string
+	open        map[int]*Call // queue -> open execution
+	monNum      map[string]int
+	hookV0      map[int]bool
+	bindingQ    map[int]int
+	stopped     bool
+	booted      bool
+	Backoffs    []int // failure counts passed to the queues' back-off function
+	boMu        sync.Mutex
+	waitNext    map[int]int        // queue -> 1: the next back-off is long, 2: short
+	delayed     map[int]*delayInfo // queues whose worker waits in a back-off delay
+	elapsing    map[int]bool       // long delays being cancelled
+	Timing      string             // a short delay could not be hit in time (the run is repeated)
+	metricsStop chan struct{}
+	cancel      context.CancelFunc
 	// ExitFiles lets a property driver decide what a finishing hook writes
 	ExitFiles func(q int, ok bool) map[string]string
 }
@@ -566,6 +567,10 @@ func NewSim(in Input) (*Sim, error) {
 }
 
 func (s *Sim) Close() {
+	if s.metricsStop != nil {
+		close(s.metricsStop)
+		s.metricsStop = nil
+	}
 	for _, c := range s.open {
 		c.Reply(Reply{Exit: 1})
 	}
@@ -863,6 +868,20 @@ func (s *Sim) Do(a Action) StepObs {
 		if !s.booted {
 			s.Op.VerifStart()
 			s.booted = true
+			// the operator's metrics loop (runMetrics) walks the queue set periodically while the
+			// events handler adds tasks: do the same, much more often
+			s.metricsStop = make(chan struct{})
+			go func(stop chan struct{}) {
+				for {
+					select {
+					case <-stop:
+						return
+					default:
+					}
+					s.Op.TaskQueues.Iterate(func(q *queue.TaskQueue) { _ = q.Length() })
+					time.Sleep(100 * time.Microsecond)
+				}
+			}(s.metricsStop)
 			s.Op.TaskQueues.DoWithLock(func(tqs *queue.TaskQueueSet) {
 				for _, q := range tqs.Queues {
 					qq, qn := q, queueNum(q.Name)
